@@ -150,6 +150,9 @@ func NewTemplateGenerator(
 		}
 		outPkgFSPath = pathlib.NewPath(cwd).JoinPath(outPkgFSPath)
 	}
+	// A dir such as "../pkg" or "{{.InterfaceDir}}/../pkg" must compare equal to
+	// the directory it denotes (in-package detection compares paths textually).
+	outPkgFSPath = outPkgFSPath.Clean()
 	outPkgPath, err := findPkgPath(outPkgFSPath)
 	if err != nil {
 		log.Err(err).Msg("failed to find output package path")
